@@ -186,6 +186,9 @@ def run(C, R):
             if fn['kind'] == 'closure' or not fn['path'].lstrip('<').startswith('channel::mpmc'):
                 continue
             # (no syntactic pre-filter: the lock and the discard may sit in a helper or a closure the function calls)
+            if not fn.get('reachable') and not fn.get('impl_trait') and fn['kind'] in ('fn', 'assoc') and \
+                    [c for c, _ in CG.callers_of(fn['path']) if c != fn['path']]:
+                continue     # a private helper: judged inlined into whoever calls it
             if fn.get('impl_adt') == STATE:
                 continue     # the state functions themselves: R2 (delivery) and C08.R2 (what clear does)
             for path in E.run(fn['path']):
